@@ -12,7 +12,7 @@ import datetime
 import random
 from fractions import Fraction
 
-from vh.core import MachineryError, guarded, Raised, spell_flag
+from vh.core import MachineryError, guarded, Raised, spell_flag, same_evaluation
 from vh import xr
 
 NB = 24
@@ -135,6 +135,25 @@ def run(chk, replay=None):
             chk.violation('comparison tests changed their inputs', {'style': style, 'scale': scale, 'n': n,
                           'forecast_a_changed': snap[0] != numpy.array(fa.data).tobytes(), 'forecast_b_changed': snap[1] != numpy.array(fb.data).tobytes(),
                           'catalog_changed': snap[2] != cat.catalog.tobytes()})
+        if t % 7 == 3 and n >= 4 and not isinstance(r_ab, Raised):
+            # the catalog is shortened IN PLACE (a user's filter) and the same forecast objects are evaluated against it again: the answer
+            # is that of fresh objects holding the same rates and the same remaining events
+            kept = cat.catalog[: n - (n // 3)].copy()
+            cat.catalog = kept.copy()
+            again_t = guarded(pe.paired_t_test, fa, fb, cat, alpha=alpha, scale=scale_lit)
+            again_w = guarded(pe.w_test, fa, fb, cat, scale=scale_lit)
+            fa2, fb2 = make(shape, [float(x) for x in numpy.array(fa.data).ravel()]), make(shape, [float(x) for x in numpy.array(fb.data).ravel()])
+            cat2 = B.catalog(w, nc, nb)
+            cat2.catalog = kept.copy()
+            fresh_t = guarded(pe.paired_t_test, fa2, fb2, cat2, alpha=alpha, scale=scale_lit)
+            fresh_w = guarded(pe.w_test, fa2, fb2, cat2, scale=scale_lit)
+            chk.count(4)
+            for tag, x_, y_ in (('paired_t_test', again_t, fresh_t), ('w_test', again_w, fresh_w)):
+                if not same_evaluation(x_, y_):
+                    chk.violation('%s:%s:differs from fresh objects after the catalog was shortened in place' % (tag, style),
+                                  {'n_before': n, 'n_after': int(len(kept)), 'same_objects': repr(getattr(x_, 'observed_statistic', x_)),
+                                   'fresh_objects': repr(getattr(y_, 'observed_statistic', y_))})
+            chk.nontrivial('inplace|%d' % t)
         days = 30.0
         da = numpy.array(a, dtype=float) / days if scale else numpy.array(a, dtype=float)
         db = numpy.array(b, dtype=float) / days if scale else numpy.array(b, dtype=float)
